@@ -383,6 +383,8 @@ package plenccodec
 //@   loop 2 entry[C10,C01] loadi64(ptr + 8) == count && count <= loadi64(ptr + 16) && offset == 0
 //@   loop 2 step[C10,C01] called_Codec_Read && call_Codec_Read_arg0 == c.Underlying && call_Codec_Read_arg2 == loadptr(ptr) + head_i * int(c.EltSize) && i == head_i + 1 && offset == head_offset + call_Codec_Read_r0
 //@   ensures[C10,C01] err == nil ==> loopdone_2
+//@   # acceptance: the only error of the reader's own is a varint that cannot be read
+//@   atcall fmt.Errorf [C01,C03] called_ReadVarUint && call_ReadVarUint_r1 <= 0
 
 //@ func plenccodec.WTFixedSliceWrapper.Read
 //@   safety C04 C11
@@ -506,12 +508,16 @@ package plenccodec
 //@   ensures[C09,C01] r1 == nil && call_MapCodec_readTagAndLength_r2 == 2 ==> called_Codec_Read && call_Codec_Read_arg2 == call_mapassign_r0 && call_Codec_Read_arg0 == c.valueCodec
 //@   # merge by key: the slot found for the key is always written - decoded into, or overwritten with the zero value
 //@   ensures[C10,C09] r1 == nil && !(called_Codec_Read && call_Codec_Read_arg2 == call_mapassign_r0) ==> called_typedmemmove && call_typedmemmove_arg1 == call_mapassign_r0 && call_typedmemmove_arg2 == c.vZero
+//@   # acceptance: the only errors made here wrap an error of the key or value codec
+//@   atcall fmt.Errorf [C01,C03] called_Codec_Read && call_Codec_Read_r1 != nil
 
 //@ func plenccodec.*MapCodec.readTagAndLength
 //@   safety C04 C11
 //@   requires 0 <= offset && offset <= len(data)
 //@   ensures[C04] err == nil ==> offset <= offset2 && offset2 <= fieldEnd && fieldEnd <= len(data)
 //@   ensures[C04] err == nil ==> 0 <= wt && wt <= 7
+//@   # acceptance: own errors only for an unreadable tag or length and a length that overruns the entry
+//@   atcall fmt.Errorf [C01,C03] call_ReadTag_r2 <= 0 || (called_ReadVarUint && (call_ReadVarUint_r1 <= 0 || call_ReadVarUint_r0 > uint64(len(call_ReadVarUint_arg0) - call_ReadVarUint_r1)))
 
 //@ func plenccodec.ProtoMapCodec.Read
 //@   safety C04 C11
